@@ -583,8 +583,12 @@ def run_fd(case):
             return ["raise", "FrozenHashError"]
 
     def new_res(r):
-        return ["ok", ["new", items(r), bool(r is fd), bool(r == fd and fd == r and not (r != fd))]]
+        # hash() of the returned object is taken only when it is a FrozenDict (dict.copy gives a plain dict)
+        h = hash_res(r) if type(r) is FrozenDict else ["na"]
+        returned.append(r)
+        return ["ok", ["new", items(r), bool(r is fd), bool(r == fd and fd == r and not (r != fd)), h]]
     obs = []
+    returned = []
     for op in case["ops"]:
         name = op[0]
         try:
@@ -652,7 +656,7 @@ def run_fd(case):
     fd2 = _fd_new(case["ctor2"], case["kvs2"])
     ihs = []
     seen = set()
-    for d in (fd, fd2):
+    for d in [fd, fd2] + returned:      # oracle: hash of every (key, value) tuple any hashed object holds
         for k, v in d.items():
             t = (tok(k), tok(v))
             if t[1] < 900 and t not in seen:
@@ -816,7 +820,9 @@ def c_fres(res):
     if v[0] == "hash":
         return "(Ok (FHashV %s))" % cz(v[1])
     if v[0] == "new":
-        return "(Ok (FNew %s %s %s))" % (ckvs(v[1]), cb(v[2]), cb(v[3]))
+        h = v[4]
+        hout = "HNA" if h[0] == "na" else ("HRaise" if h[0] == "raise" else "(HOk %s)" % cz(h[1][1]))
+        return "(Ok (FNew %s %s %s %s))" % (ckvs(v[1]), cb(v[2]), cb(v[3]), hout)
     raise ValueError(v)
 
 
@@ -849,7 +855,7 @@ def c_fd_op(op):
     if name == "copy":
         return "FCopy"
     if name == "clone":
-        return "FPickle"
+        return "FClone %s" % cb(op[1] == "dictcopy")
     raise ValueError(name)
 
 
